@@ -289,8 +289,23 @@ impl Sched {
 
     /// Entry from the hooks.
     pub fn sync_op(self: &Arc<Self>, op: Op) {
+        if std::thread::panicking() {
+            // hooks reached from destructors while a thread unwinds must never unwind again
+            if let Op::Release(k, id) = op {
+                let mut g = self.lock();
+                if let Some(tid) = Self::my_tid(&g) {
+                    if g.locks.get(&(k, id)) == Some(&tid) {
+                        g.locks.remove(&(k, id));
+                    }
+                }
+            }
+            return;
+        }
         let mut g = self.lock();
         if g.ending {
+            if matches!(op, Op::Release(..)) {
+                return;
+            }
             // end of execution: controlled threads unwind at their next hook
             if Self::my_tid(&g).is_some() {
                 drop(g);
